@@ -223,6 +223,11 @@ func (i *In) parsePattern(
 	isFirstToken bool,
 ) error {
 
+	// end of file inside a pattern
+	if nextT == nil {
+		return nil
+	}
+
 	switch {
 	// String
 	case nextT.IsClassType():
